@@ -12,7 +12,8 @@ import os
 import subprocess
 import sys
 import threading
-from concurrent.futures import ThreadPoolExecutor
+import time
+from concurrent.futures import Future, ThreadPoolExecutor
 
 import numpy as np
 
@@ -21,7 +22,7 @@ from common import rng_for, VERIF
 from draws import Draws
 
 RULE = ("compute_gamma configurations from VERIF_SEED (continua 2..4 annotators, mode exact / fast / soft, sampler statistical / shuffle, n_samples 3..6, "
-        "precision None or 0.5) x 8 schedules (forced FIFO-now, FIFO, LIFO, 2 random permutations, delayed first job; real pools of 1, 2, 16 workers) "
+        "precision None or 0.15 - small enough to force a second batch of samples) x 8 schedules (forced FIFO-now, FIFO, LIFO, 2 random permutations, delayed first job; real pools of 1, 2, 16 workers) "
         "+ repetition + subprocesses with PYTHONHASHSEED in {1, 2, random}; non-trivial = the result has >= 3 chance alignments and a gamma < 1; "
         "distinct by (configuration, schedule)")
 TRUSTED_BASE = ["Coq 8.16.1 kernel (theorems of props/C06.v)", "harness/{common,gen,draws,c06}.py: the recording executor substituted for "
@@ -30,42 +31,51 @@ ASSUMPTIONS = ["jobs are pure functions of (dissimilarity, continuum): checked b
                "races inside native code running without the GIL cannot be exhibited by the model"]
 
 
-class Fut:
+class Fut(Future):
+    """a real concurrent.futures.Future (so that any way of waiting on it works) whose job is run by the forced executor"""
+
     def __init__(self, ex, k, fn, args):
+        Future.__init__(self)
         self.ex, self.k, self.fn, self.args = ex, k, fn, args
-        self.done = False
-        self.value = None
-        self.exc = None
 
     def run(self):
         def target():
             self.ex.events.append(("run", self.k, threading.current_thread() is threading.main_thread()))
             try:
-                self.value = self.fn(*self.args)
+                self.set_result(self.fn(*self.args))
             except BaseException as e:   # noqa
-                self.exc = e
+                self.set_exception(e)
         t = threading.Thread(target=target, name="forced-worker-%d" % self.k)
         t.start()
         t.join()
-        self.done = True
 
-    def result(self):
+    def result(self, timeout=None):
         self.ex.events.append(("result", self.k))
-        if not self.done:
+        if not self.done():
             self.ex.flush()
-        if self.exc is not None:
-            raise self.exc
-        return self.value
+        return Future.result(self, timeout)
 
 
 class ForcedExecutor:
-    """stands for the ThreadPoolExecutor class: calling it returns itself; jobs run in a forced order on fresh worker threads"""
+    """stands for the ThreadPoolExecutor class: calling it returns itself; jobs run in a forced order on fresh worker threads.
+    Pending jobs are run when a result is requested, or by a watcher thread once the submitting thread has been silent for 50 ms
+    (so that code waiting in another way, e.g. concurrent.futures.as_completed, cannot dead-lock)."""
 
     def __init__(self, order, rng=None):
         self.order, self.rng = order, rng
         self.events = []
         self.pending = []
         self.count = 0
+        self.lock = threading.RLock()
+        self.last = time.time()
+        self.alive = True
+        threading.Thread(target=self._watch, daemon=True).start()
+
+    def _watch(self):
+        while self.alive:
+            time.sleep(0.02)
+            if self.pending and time.time() - self.last > 0.05:
+                self.flush()
 
     def __call__(self, *a, **k):
         return self
@@ -77,26 +87,33 @@ class ForcedExecutor:
         self.flush()
         return False
 
+    def shutdown(self, *a, **k):
+        self.flush()
+        self.alive = False
+
     def submit(self, fn, *args):
-        f = Fut(self, self.count, fn, args)
-        self.events.append(("submit", self.count))
-        self.count += 1
-        if self.order == "fifo-now":
-            f.run()
-        else:
-            self.pending.append(f)
-        return f
+        with self.lock:
+            f = Fut(self, self.count, fn, args)
+            self.events.append(("submit", self.count))
+            self.count += 1
+            self.last = time.time()
+            if self.order == "fifo-now":
+                f.run()
+            else:
+                self.pending.append(f)
+            return f
 
     def flush(self):
-        p, self.pending = self.pending, []
-        if self.order == "lifo":
-            p = list(reversed(p))
-        elif self.order == "random":
-            self.rng.shuffle(p)
-        elif self.order == "delay-first" and p:
-            p = p[1:] + p[:1]
-        for f in p:
-            f.run()
+        with self.lock:
+            p, self.pending = self.pending, []
+            if self.order == "lifo":
+                p = list(reversed(p))
+            elif self.order == "random":
+                self.rng.shuffle(p)
+            elif self.order == "delay-first" and p:
+                p = p[1:] + p[:1]
+            for f in p:
+                f.run()
 
 
 def snapshot(cont):
@@ -130,6 +147,8 @@ def run_config(pa, cfg, executor_factory, record=True):
                         vals.append(float("nan"))
     finally:
         pa.continuum.ThreadPoolExecutor = orig
+        if hasattr(ex, "alive"):
+            ex.alive = False
     cont.best_window_size = np.inf if cfg["mode"] != "fast" else cont.best_window_size
     after = snapshot(cont)
     return [v.hex() if v == v else "nan" for v in vals], getattr(ex, "events", None), dr.log, before == after, len(res.chance_alignments)
@@ -171,7 +190,7 @@ def run(rep, tier, seed, pa):
             continue
         cfgs.append({"units": units, "dissim": list(rng.choice([("pos", 1.0), ("comb", 1.0, 1.0, 1.0, "abs", "abc", "asis"), ("comb", 0.5, 3.0, 0.5, "abs", "abc", "asis")])),
                      "mode": rng.choice(["exact", "exact", "fast", "soft"]), "sampler": rng.choice(["stat", "int_pivot", "float_pivot"]),
-                     "n_samples": rng.choice([3, 4, 6]), "precision": rng.choice([None, None, 0.5]), "numpy_seed": rng.randrange(2 ** 31),
+                     "n_samples": rng.choice([3, 4, 6]), "precision": rng.choice([None, 0.15, 0.15]), "numpy_seed": rng.randrange(2 ** 31),
                      "ground_truth": (sorted(rng.sample(gen.ANNOTATORS[:n], rng.randrange(2, n + 1)), reverse=True) if n >= 3 and rng.random() < 0.6 else None)})
     # the configurations compared across processes come first: one with a ground-truth subset and the shuffle sampler, one plain
     with_gt = [c for c in cfgs if c["ground_truth"] and c["sampler"] != "stat"] or [c for c in cfgs if c["ground_truth"]]
